@@ -13,15 +13,24 @@
 (* dependent pivots (defect = n - rank), that solve and the sparse inverse      *)
 (* satisfy N x = r and N Q N = N.                                               *)
 EXTENDS ExactLA, TLC, Json
-CONSTANTS MaxM, MaxN, Keep, Seed
+CONSTANTS MaxM, MaxN, Keep, Seed,
+          BigN, BigM, KeepBig        \* second family: networks of BigN columns whose rows are pairs / triples of columns (edges), BigM rows
 VARIABLES n, rows, order
 vars == <<n, rows, order>>
 Val(i, j) == ((i * 3 + j * 5) % 4) + 1
-Init == n \in 1..MaxN /\ rows = <<>> /\ order \in {"asc", "desc", "rot"}
-AddRow == /\ Len(rows) < MaxM
+Init == n \in (1..MaxN) \cup BigN /\ rows = <<>> /\ order \in {"asc", "desc", "rot"}
+AddRow == /\ n <= MaxN /\ Len(rows) < MaxM
           /\ \E S \in (SUBSET (1..n)) \ {{}} : rows' = Append(rows, S)
           /\ UNCHANGED <<n, order>>
-Next == AddRow
+(* larger patterns (profiles with structure, disconnected parts, rank defects of free networks): every row joins two or  *)
+(* three columns; rows are added in increasing code so that a set of rows is generated once                            *)
+Code(S) == SumN([j \in 1..n |-> IF j \in S THEN (IF j = 1 THEN 1 ELSE IF j = 2 THEN 2 ELSE IF j = 3 THEN 4 ELSE IF j = 4 THEN 8 ELSE IF j = 5 THEN 16 ELSE IF j = 6 THEN 32 ELSE IF j = 7 THEN 64 ELSE 128) ELSE 0], n)
+Edges == {S \in SUBSET (1..n) : Cardinality(S) = 2 \/ (Cardinality(S) = 3 /\ \E a \in S : S = {a, a + 1, a + 3})}
+AddEdge == /\ n > MaxN /\ Len(rows) < BigM
+           /\ \E S \in Edges : /\ (rows # <<>> => Code(S) > Code(rows[Len(rows)]))
+                                /\ rows' = Append(rows, S)
+           /\ UNCHANGED <<n, order>>
+Next == AddRow \/ AddEdge
 Spec == Init /\ [][Next]_vars
 m == Len(rows)
 Dense == [i \in 1..m |-> [j \in 1..n |-> IF j \in rows[i] THEN Val(i, j) ELSE 0]]
@@ -39,10 +48,12 @@ RECURSIVE H(_, _)
 H(r, k) == IF k = 0 THEN 0 ELSE SumN([j \in 1..n |-> IF j \in r[k] THEN j * j ELSE 0], n) * (2 * k + 1) + H(r, k - 1)
 Case == [m |-> m, n |-> n, A |-> Dense, fill |-> [i \in 1..m |-> Fill(i)], adj |-> [j \in 1..n |-> SortedSeq(Adj(j))],
          connected |-> Connected, N |-> Normal, rank |-> Rank(Dense)]
-Emit == (m >= 1 /\ (H(rows, m) + n * 7 + Seed) % Keep = 0) => PrintT("CASE " \o ToJson(Case))
+Emit == (m >= 1 /\ (H(rows, m) + n * 7 + Seed) % (IF n <= MaxN THEN Keep ELSE KeepBig) = 0 /\ (n > MaxN => m >= n - 2))
+          => PrintT("CASE " \o ToJson(Case))
 (* laws of the definitions *)
-Laws == m >= 1 => /\ IsSymmetric(Normal)
-                  /\ Rank(Normal) = Rank(Dense)
-                  /\ \A j \in 1..n : \A c \in Adj(j) : j \in Adj(c)
-                  /\ (Connected => \A j \in 1..n : n = 1 \/ Adj(j) # {})
+Laws == (m >= 1 /\ n <= MaxN) =>
+          /\ IsSymmetric(Normal)
+          /\ Rank(Normal) = Rank(Dense)
+          /\ \A j \in 1..n : \A c \in Adj(j) : j \in Adj(c)
+          /\ (Connected => \A j \in 1..n : n = 1 \/ Adj(j) # {})
 =============================================================================
